@@ -150,6 +150,23 @@ def case_model(ctx, inp):
             impl = Sym("scalar")
         ctx.eq("metaOf vs ._meta (%s expression)" % label, model, impl)
     check_collection(ctx, "fragment program", coll)
+    # computed columns (names, order, DUPLICATES, dtypes) vs pandas and vs ._meta, optimised and unoptimised
+    if not tail:
+        try:
+            exp = c43.run_program(df, inp["prog"])
+            opt = coll.compute(scheduler="sync")
+            raw = c43._raw_compute(coll.expr)
+            for label, got in (("optimised", opt), ("unoptimised", raw)):
+                if [str(c) for c in got.columns] != [str(c) for c in exp.columns]:
+                    ctx.fail(f"{label} result has columns {[str(c) for c in got.columns]}, pandas {[str(c) for c in exp.columns]}",
+                             observed=[str(c) for c in got.columns], expected=[str(c) for c in exp.columns])
+                elif [str(c) for c in got.columns] != [str(c) for c in coll._meta.columns]:
+                    ctx.fail(f"{label} result columns differ from ._meta", observed=[str(c) for c in got.columns],
+                             expected=[str(c) for c in coll._meta.columns])
+            if any(st[0] == "assign" for st in inp["prog"]) and any(st[0] == "sel" for st in inp["prog"]):
+                ctx.branch("model-assign-select-chain")
+        except Exception as e:
+            ctx.fail(f"fragment program raised {type(e).__name__}", observed=f"{type(e).__name__}: {e}"[:300])
     ctx.branch("model-" + ("series" if tail else "frame"))
 
 
@@ -300,7 +317,7 @@ def generate(ctx):
     streams = []
     for _ in range(ctx.n(55, 2000)):
         inp, names = c43.gen_frame(rng)
-        inp["prog"] = c43.gen_prog(rng, names, rng.randint(0, 4))
+        inp["prog"] = c43.gen_assign_chain(rng, names) if rng.random() < 0.45 else c43.gen_prog(rng, names, rng.randint(0, 4))
         cur = list(names)
         for st in inp["prog"]:
             if st[0] == "sel":
